@@ -84,16 +84,19 @@ Definition as_dotted (gk : str) (fs : list field) : table :=
 
 (* ---- styles 2 and 3: signature of a class / dataclass ---- *)
 (* What _add_signature_parameter makes of one parameter before calling add_argument
-   (_signatures.py:337-375): Optional without default gets default None; required iff still no default;
-   non-required names starting with "_" are skipped; default None on a non-Optional annotation turns the
-   annotation into Optional[annotation]. *)
+   (_signatures.py:337-377): Optional without default gets default None (and is then never treated as private:
+   "no default in the signature, so it can't be left out of the call"); required iff still no default;
+   non-required names starting with "_" that HAVE a default in the signature are skipped; default None on a
+   non-Optional annotation turns the annotation into Optional[annotation]. *)
 Definition sig_norm (f : field) : list field :=
   let d := match f_default f with
            | NoDefault => if is_optional (f_ty f) then Dflt VNone else NoDefault
            | x => x
            end in
+  let is_private := starts_underscore (f_name f)
+                    && match f_default f with NoDefault => false | Dflt _ => true end in
   let is_required := match d with NoDefault => true | Dflt _ => false end in
-  if negb is_required && starts_underscore (f_name f) then []
+  if negb is_required && is_private then []
   else
     let t := match d with
              | Dflt v => if is_none v && negb (is_optional (f_ty f)) then TOpt (f_ty f) else f_ty f
@@ -173,6 +176,8 @@ Definition explicit_field (f : field) : bool :=
   | Dflt v => negb (starts_underscore (f_name f)) && (negb (is_none v) || is_optional (f_ty f))
   end.
 Definition explicit (fs : list field) : bool := forallb explicit_field fs.
+(* no private names *)
+Definition public (fs : list field) : bool := forallb (fun f => negb (starts_underscore (f_name f))) fs.
 
 Definition has_dot (s : str) : bool := existsb (fun c => N.eqb c c_dot) s.
 Definition starts_dash (s : str) : bool := match s with c :: _ => N.eqb c c_dash | [] => false end.
